@@ -192,9 +192,72 @@ fn check_random(tape: &[u32]) -> CheckResult {
     Ok(o)
 }
 
+/// Whole generated sprites (every cel kind, blend mode, opacity, occluding cels, groups hidden and shown): parents and
+/// visibility against the model, and the rendering clause as a metamorphic relation that needs no blend arithmetic -
+/// deleting every cel that sits on a layer hidden directly or through an ancestor must leave every frame unchanged.
+fn check_sprite_hidden(tape: &[u32]) -> CheckResult {
+    let mut t = Tape::new(tape);
+    let mut c = crate::gen::GenCfg::full();
+    c.canvas_typ = 12;
+    c.max_cel = 8;
+    c.scale = false;
+    let mut s = crate::gen::build_sprite(&mut t, &c);
+    // make sure something is hidden through an ancestor: hide a group that has children, now and then
+    if t.chance(1, 2) {
+        let groups: Vec<usize> = (0..s.layers.len()).filter(|i| i + 1 < s.layers.len() && s.layers[i + 1].level > s.layers[*i].level).collect();
+        if !groups.is_empty() {
+            let g = groups[t.below(groups.len() as u32) as usize];
+            s.layers[g].flags &= !LF_VISIBLE;
+        }
+    }
+    let plan = crate::gen::build_plan(&mut t);
+    let enc = encode(&s, &plan);
+    let detail = || json!({"model": super::c01::summarize(&s), "input_hex": if enc.bytes.len() < 8000 { hex(&enc.bytes) } else { String::new() }});
+    let f = AsepriteFile::read(&enc.bytes[..]).map_err(|e| Failure::new("load-error", format!("well-formed file failed to load: {}", e)).with(detail()))?;
+    let mut hidden_by_ancestor = 0;
+    for i in 0..s.layers.len() {
+        let l = f.layer(i as u32);
+        let wantp = s.parent_of(i).map(|p| p as u32);
+        if l.parent().map(|p| p.id()) != wantp {
+            return Err(Failure::new("parent", format!("layer {} parent {:?}, expected {:?}", i, l.parent().map(|p| p.id()), wantp)).with(detail()));
+        }
+        if l.is_visible() != s.layer_visible(i) {
+            return Err(Failure::new("is-visible", format!("layer {} is_visible {} expected {}", i, l.is_visible(), s.layer_visible(i))).with(detail()));
+        }
+        if s.layers[i].flags & LF_VISIBLE != 0 && !s.layer_visible(i) {
+            hidden_by_ancestor += 1;
+        }
+    }
+    let mut s2 = s.clone();
+    let mut removed = 0;
+    for fr in s2.frames.iter_mut() {
+        let before = fr.cels.len();
+        fr.cels.retain(|c| s.layer_visible(c.layer as usize));
+        removed += before - fr.cels.len();
+    }
+    if removed > 0 && s.width as u64 * s.height as u64 <= 1 << 16 {
+        let enc2 = encode(&s2, &plan);
+        let f2 = AsepriteFile::read(&enc2.bytes[..]).map_err(|e| Failure::new("load-error", format!("sprite without its hidden cels failed to load: {}", e)).with(detail()))?;
+        for fi in 0..s.frames.len().min(6) {
+            let a = crate::observe::canon(&f.frame(fi as u32).image());
+            let b = crate::observe::canon(&f2.frame(fi as u32).image());
+            if let Some((x, y, pa, pb)) = a.first_diff(&b) {
+                return Err(Failure::new("hidden-layer-contributes", format!("frame {} changes at ({},{}) from {:?} to {:?} when the {} cels on hidden layers are deleted from the file", fi, x, y, pa, pb, removed)).with(detail()));
+            }
+        }
+    }
+    let mut o = Outcome::new(removed > 0, hash_bytes(&enc.bytes));
+    o.labels.push("whole-sprite".into());
+    if hidden_by_ancestor > 0 && removed > 0 {
+        o.labels.push("whole-sprite:cels-hidden-through-ancestor".into());
+    }
+    o.sample = Some(json!({"layers": s.layers.len(), "hidden_cels_removed": removed}));
+    Ok(o)
+}
+
 pub fn run(run: &mut Run) {
     let nmax = if run.thorough() { 10 } else { 8 };
-    run.rule = format!("exhaustive: every level sequence of length 1..={} with level[0]=0 and level[i] <= level[i-1]+1, times every assignment of visible flags; each forest is checked twice: with layers that have children being groups (leaves are image layers owning one opaque 1x1 cel at their own canvas pixel) and with every layer being an image layer with a cel (the statement defines parents by nesting level, not by layer type). Oracle: parent() = nearest preceding layer of smaller level (hence lower id), is_visible() = AND over ancestors, frame pixel i opaque iff leaf i is visible per the model. Plus random forests of 9-400 layers (proptest tapes) and chains of depth 1000 / 65535. non-trivial: depth >= 2, or a hidden ancestor above a visible descendant, or a sibling following a nested group; distinct by (levels, flags)", nmax);
+    run.rule = format!("exhaustive: every level sequence of length 1..={} with level[0]=0 and level[i] <= level[i-1]+1, times every assignment of visible flags; each forest is checked twice: with layers that have children being groups (leaves are image layers owning one opaque 1x1 cel at their own canvas pixel) and with every layer being an image layer with a cel (the statement defines parents by nesting level, not by layer type). Oracle: parent() = nearest preceding layer of smaller level (hence lower id), is_visible() = AND over ancestors, frame pixel i opaque iff leaf i is visible per the model. Plus random forests of 9-400 layers (proptest tapes), chains of depth 1000 / 65535, and whole generated sprites (all cel kinds, blend modes, opacities, occluding cels) for which parents and visibility are compared with the model and every frame must stay unchanged when all cels on layers hidden directly or through an ancestor are deleted from the file. non-trivial: depth >= 2, or a hidden ancestor above a visible descendant, or a sibling following a nested group; distinct by (levels, flags)", nmax);
     run.exhaustive = Some(true);
     // (levels, visible mask, image_parents)
     let mut cases: Vec<(Vec<u16>, u32, bool)> = vec![];
@@ -280,13 +343,17 @@ pub fn run(run: &mut Run) {
     }
     let (lanes, n) = if run.thorough() { (16, 3000) } else { (16, 150) };
     run_tapes(run, lanes, n, 900, &check_random);
+    let n2 = if run.thorough() { 12000 } else { 1200 };
+    run_tapes(run, lanes, n2, 1200, &check_sprite_hidden);
     // thorough only: coverage-guided search over generator tapes with the same oracle
     crate::fuzzstage::fuzz_tapes(run, 900, 120);
 }
 
 pub fn replay(case: &serde_json::Value) -> CheckResult {
     if let Some(t) = tape_from_case(case) {
-        return check_guarded(|| check_random(&t));
+        // a tape is either a random forest or a whole sprite: replay both readings
+        check_guarded(|| check_random(&t))?;
+        return check_guarded(|| check_sprite_hidden(&t));
     }
     if let Some(n) = case.get("wide_layers").and_then(|d| d.as_u64()) {
         let n = n as usize;
